@@ -62,6 +62,10 @@ CHECKS = {
             'Every combination is solved by the real Stroh/isotropic solver and checked for Burgers jump, strain = sym grad u, stress = C:strain, div stress = 0, 1/r homogeneity, K properties, covariance and the isotropic limit. '
             'Right level: stateless solver, quantifier over inputs; finite-difference clauses hold to a stated tolerance on the grid.', '2 C12',
             'finite differences h=1e-5 r with 1e-7 tolerance; grid points keep >= 7 degrees from the cut'),
+    'C13': (EX, 'bounded-exhaustive enumeration of unit cells x slip systems (screw/edge/mixed) x all 6 (m,n) axis assignments x size menus x every offered shift index (+ explicit/scaled shifts) x core centres x boundary shapes/widths, monopole and periodicarray (linear and elastic), each compared with independently constructed expectations',
+            'Every configuration of the product is generated by the real Dislocation class; atoms kept and displaced by a separately constructed elastic solution, periodicity, boundary retyping against own region tests, deleted-atom count, brute-force overlap search over both in-plane periodic directions, old_id mapping, '
+            'base atoms mapped back onto the hand-built unit-cell lattice through an own transform, and the disregistry profile with the analytic tail bound are checked. Right level: stateless generator, quantifier over a finite index/option box.', '2 C13',
+            'systems of <= a few hundred atoms; positions 1e-9 A, disregistry 1e-8; the elastic solution itself is trusted here and judged by C12; (m,n) given as axis strings'),
     'C15': (MC, 'explicit-state BFS over histories of successive point-defect insertions on real Systems with a list-of-records reference model, dedup on the model state',
             'All histories of depth <= 3 over ~150 operation instances (every ptd_id incl. negative/out of range, positions Cartesian/relative/through all 26 images/at 0.5 and 2 atol, all four defect types and point()) are replayed; '
             'each transition is compared with the input (survivors, order, snapshot) and with the model (old_id composes over the history; state by position == state by index). Right level: the old-index map is history state.', '2 C15',
